@@ -78,7 +78,7 @@ def main():
     dst = os.path.join(V, "seeded", sid)
     os.makedirs(dst, exist_ok=True)
     for f in ("patch.diff", "demo.cpp", "notes.md"):
-        if os.path.exists(os.path.join(src, f)):
+        if os.path.exists(os.path.join(src, f)) and os.path.abspath(os.path.join(src, f)) != os.path.abspath(os.path.join(dst, f)):
             shutil.copy(os.path.join(src, f), os.path.join(dst, f))
     json.dump(meta, open(os.path.join(dst, "meta.json"), "w"), indent=1)
     print(f"[{sid}] detected_by: {meta['detected_by']}")
